@@ -39,12 +39,12 @@ var contentOrder = []string{"link-plain", "layout-plain", "link-nasty", "layout-
 
 func poolKeys(thorough bool) []string {
 	if thorough {
-		return []string{"ed5", "rsa2048", "p256", "p384^", "ed4^"}
+		return []string{"ed5", "rsa2048", "p256", "p384^", "ed4^", "edw1"}
 	}
 	return []string{"ed5", "p384^"} // "^": key object whose key id is spelled in upper case
 }
 
-var observers = []string{"ed5", "rsa2048", "p256", "p384^", "ed4^", "ed6"}
+var observers = []string{"ed5", "rsa2048", "p256", "p384^", "ed4^", "edw1", "ed6"}
 
 // ---- reference side -------------------------------------------------------------------------
 
